@@ -2,10 +2,13 @@
 import json
 import random
 
+from . import libcommon
 from .. import common, translate, gen, corpus
 from ..gen import gen_value, NF_CLASSES
 
 THEOREMS = ["c12_proxy_call_is_the_raw_operation", "c12_histories_agree", "c12_handler_error_surfaces_unchanged"]
+THEOREMS_T = ["c12_translated_exec_proxy_sends_the_raw_request", "c12_translated_migrate_proxy_sends_the_raw_request",
+              "c12_translated_downcast_error"]
 
 
 def build(run, thorough):
@@ -100,6 +103,10 @@ def check(run, replay=None):
     translate.regen_tables(run)
     run.hygiene()
     run.prove("Props/C12", THEOREMS)
+    # tie by translation of sylvia/src/multitest.rs (ExecProxy, MigrateProxy, downcast_error); when it is not established
+    # twice as many histories are compared below
+    libcommon.regen_imp(run)
+    tie = run.prove("Props/C12T", THEOREMS_T, strengthening=True)
     c = build(run, thorough)
     try:
         ops, metas = [], []
@@ -107,7 +114,7 @@ def check(run, replay=None):
             if "__rejected" in c.names[pi]:
                 continue
             # skip programs whose messages carry renamed / aliased wire names (the raw JSON is built from the signature)
-            for _ in range(30 if thorough else 16):
+            for _ in range(30 if thorough else (16 if tie else 32)):
                 h = gen_history(rng, p)
                 ops.append({"prog": pi, "op": "history", "steps": h})
                 metas.append((pi, h))
